@@ -137,7 +137,10 @@ class BDSKModel(CallableModel):
                 optionals['times'] = process_object(data['times'], dic)
         optionals['survival'] = data.get('survival', True)
         optionals['relative_times'] = data.get('relative_times', False)
-        optionals['removal_probability'] = data.get('relative_times', None)
+        if 'removal_probability' in data:
+            optionals['removal_probability'] = process_object(
+                data['removal_probability'], dic
+            )
 
         return cls(id_, tree, R, delta, s, **optionals)
 
